@@ -300,8 +300,7 @@ def main(tier, replay):
                        "program": [{"t": "t1", "op": "begin"}, {"t": "t1", "op": "lock", "ks": ["k2"], "wait": -1, "loie": True, "rv": True},
                                    {"t": "t1", "op": "lock", "ks": ["k1"], "wait": -1}, {"t": "t1", "op": "sleep", "wait": 650},
                                    {"t": "t1", "op": "set", "k": "k1", "v": "x"}, {"t": "t1", "op": rng.choice(["commit", "rollback"])}, {"t": "t1", "op": "sleep", "wait": 350}],
-                       "keys": ["k1", "k2", "k3"], "black_from": -1, "hb_primary": "k1",
-                       "no_acceptor": True})   # the acceptor's vocabulary has one primary per transaction; a dropped tentative primary is judged by the python monitor
+                       "keys": ["k1", "k2", "k3"], "black_from": -1, "hb_primary": "k1"})   # a dropped tentative primary: the acceptor follows the latest lock call's primary
             continue
         hb.append({"id": f"hb{i}", "backend": "unistore", "splits": rng.sample(["k2", "k3"], rng.randrange(0, 3)), "preload": [{"k": "k1", "v": "o"}], "managed_ttl": 200 + 50 * (i % 3),
                    "txn": {"mode": "2pc", "ops": []}, "txns": {"t1": {"mode": rng.choice(["2pc", "async"]), "pessimistic": True, "ops": []}},
@@ -309,8 +308,8 @@ def main(tier, replay):
                                {"t": "t1", "op": "set", "k": "k1", "v": "x"}, {"t": "t1", "op": rng.choice(["commit", "rollback"])}, {"t": "t1", "op": "sleep", "wait": 350}],
                    "keys": ["k1", "k2", "k3"], "black_from": -1, "hb_primary": "k1"})
     # the same monitor on concurrent multi-transaction programs (the generator of C01: optimistic and pessimistic transactions in
-    # every commit mode contending for a few keys, failed lock calls, splits, concurrent-reader hooks); python predicates only —
-    # the extracted acceptor's vocabulary describes one committing transaction and its resolvers
+    # every commit mode contending for a few keys, failed lock calls, splits, concurrent-reader hooks); python predicates and
+    # the extracted acceptor (read-only commits, re-selected primaries and transactions that never commit are in its vocabulary)
     import sys, os
     sys.path.insert(0, os.path.dirname(os.path.abspath(__file__)))
     import C01
@@ -318,7 +317,6 @@ def main(tier, replay):
     progs = [C01.gen_history(prng, 50000 + i) for i in range(80 if tier == "quick" else 1200)]
     for sc in progs:
         sc["id"] = "prog-" + sc["id"]
-        sc["no_acceptor"] = True
     allsc = probes + cases + hb + progs
     res = txnlab.run_scenarios(exe, allsc)
     nviol, dist, distinct, traces = 0, {}, set(), []
